@@ -30,9 +30,12 @@ def obs_class(obs):
     return obs if obs.startswith("state:") else obs.split(":")[0]
 
 
-def first_diff(sa, sb, fa, fb, off=0, tol=R.TOL, resumed=False, tf_lagged=False):
+def first_diff(sa, sb, fa, fb, off=0, tol=R.TOL, resumed=False, tf_lagged=False, sleep_factor=0, states=True):
     """first difference between step lists sa[off:] and sb, then between final state files; (t, (obs, a, b)) or None"""
+    awake_seen = False
     for j, b in enumerate(sb):
+        if sleep_factor > 1 and b["it"] % sleep_factor == 0:
+            awake_seen = True
         if off + j >= len(sa):
             return (off + j, ("steps", len(sa), off + len(sb)))
         dd = R.diff_blocks(sa[off + j], b, tol)
@@ -43,8 +46,17 @@ def first_diff(sa, sb, fa, fb, off=0, tol=R.TOL, resumed=False, tf_lagged=False)
             # compare everything else of the step
             b2 = dict(b); a2 = dict(sa[off + j]); b2.pop("tf"); a2.pop("tf")
             dd = R.diff_blocks(a2, b2, tol)
+        if dd and resumed and sleep_factor > 1 and not awake_seen and dd[0].split(":")[0] in ("cv", "bias"):
+            # objects with timeStepFactor f have slept since the restart: what they report is what they held when they
+            # were last updated in this session (nothing, in a new one); forces on atoms and energies are compared
+            b2 = dict(b); a2 = dict(sa[off + j])
+            for key in ("cv", "bias"):
+                b2[key] = {}; a2[key] = {}
+            dd = R.diff_blocks(a2, b2, tol)
         if dd:
             return (off + j, dd)
+    if not states:
+        return None
     if len(sa) - off != len(sb):
         return (len(sa) - 1, ("steps", len(sa) - off, len(sb)))
     ds = R.diff_states(fa, fb, tol)
@@ -105,7 +117,8 @@ def judge(c, d, out, rc, err):
                     % (fmt, it0 + K, "at step %d" % (it0 + t) if t is not None else "in the final state", obs, y, x),
                     K, fmt, t=t, obs=obs)
             # B = A
-            dd = first_diff(A["steps"], B["steps"], fA, fB, off=K, resumed=True, tf_lagged=c.get("tf_lagged", False))
+            dd = first_diff(A["steps"], B["steps"], fA, fB, off=K, resumed=True, tf_lagged=c.get("tf_lagged", False),
+                            sleep_factor=c.get("sleep_factor", 0))
             if dd:
                 t, (obs, x, y) = dd
                 when = "final" if t is None else ("at-restart-step" if t == K else "after")
@@ -155,6 +168,47 @@ def judge(c, d, out, rc, err):
                     key = "bytes"
                 add("save-after-load", "save-after-load:%s:%s" % (fam, key),
                     "state written after step %d (%s), loaded in a fresh instance and written again: %s" % (it0 + K, fmt, det), K, fmt)
+    # automatic restart file written by the module at step K: a fresh instance that loads it goes on like the uninterrupted run
+    for K in c.get("auto_Ks", []):
+        Q, QB = runs.get("Q_%d" % K), runs.get("QB_%d" % K)
+        if Q is None or QB is None or len(Q["steps"]) != K + 1:
+            add("harness", "harness:%s:run-missing" % fam, "run Q_%d missing or short (rc=%s) %s" % (K, rc, err[-200:]), K, "auto")
+            continue
+        ev = [e for e in Q["events"] + QB["events"] if "err=ok" not in e]
+        if ev or not os.path.exists("%sQ_%d.colvars.state" % (pre, K)):
+            add("load-error", "auto-restart:%s:not-loaded" % fam,
+                "restart file written by the module at step %d (colvarsRestartFrequency %d): %s" % (it0 + K, R.auto_freq(c, K), ev[:1] or "no file"), K, "auto")
+            continue
+        dd = first_diff(U["steps"], QB["steps"], fU, pre + "QB_%d.colvars.state" % K, off=K, resumed=True,
+                        tf_lagged=c.get("tf_lagged", False), sleep_factor=c.get("sleep_factor", 0))
+        if dd:
+            t, (obs, x, y) = dd
+            when = "final" if t is None else ("at-restart-step" if t == K else "after")
+            add("resume", "auto-restart:%s:%s:%s" % (fam, obs_class(obs), when),
+                "the module writes its restart file at step %d (colvarsRestartFrequency %d), the job ends, a fresh instance loads "
+                "the file and continues: %s %s is %r, in the uninterrupted run %r"
+                % (it0 + K, R.auto_freq(c, K), "at step %d" % (it0 + t) if t is not None else "in the final state", obs, y, x),
+                K, "auto", t=t, obs=obs)
+    # run boundary in the same session: step K is computed twice, nothing is reloaded
+    for K in c.get("boundary_Ks", []):
+        Rr = runs.get("R_%d" % K)
+        if Rr is None or len(Rr["steps"]) != T + 1:
+            add("harness", "harness:%s:run-missing" % fam, "run R_%d missing or short (rc=%s) %s" % (K, rc, err[-200:]), K, "boundary")
+            continue
+        steps = Rr["steps"][:K + 1] + Rr["steps"][K + 2:]
+        rep = Rr["steps"][K + 1]
+        found = []
+        dd = first_diff(U["steps"], [rep], None, None, off=K, resumed=True, tf_lagged=c.get("tf_lagged", False), states=False)
+        if dd:
+            found.append(("at-repeated-step", dd))
+        dd = first_diff(U["steps"], steps, fU, pre + "R_%d.colvars.state" % K)
+        if dd:
+            found.append(("final" if dd[0] is None else "after", dd))
+        for when, (t, (obs, x, y)) in found:
+            add("resume", "run-boundary:%s:%s:%s" % (fam, obs_class(obs), when),
+                "a run ends after step %d and the next run of the same session computes that step again: %s %s is %r, "
+                "in the uninterrupted run %r" % (it0 + K, "at step %d" % (it0 + t) if t is not None else "in the final state", obs, y, x),
+                K, "boundary", t=t, obs=obs)
     # both formats lead to the same final state
     if "text" in c["fmts"] and "binary" in c["fmts"] and not F:
         for K in c["Ks"]:
